@@ -518,7 +518,8 @@ func (t *Transition) emitSelfEvents() Result {
 		}
 	}
 
-	return ret
+	// a veto which was handled as a partial auto acceptance doesn't cancel
+	return Executed
 }
 
 func (t *Transition) emitEnterEvents() Result {
